@@ -69,7 +69,8 @@ func RunLeechers(c *sim.Ctx) {
 			var wg sync.WaitGroup
 			var ml modelLock
 			suspended, done := false, false
-			doneSince := time.Duration(-1) // instant the application's download became done
+			doneSince := time.Duration(-1)      // instant the application's download became done
+			suspendedSince := time.Duration(-1) // instant the current suspension began (-1: not suspended)
 			lastSuspendAnswer := false
 			doneAnswered := false
 			arrived := 0                   // chunk ids 0..arrived-1 were handed to the leecher
@@ -92,6 +93,11 @@ func RunLeechers(c *sim.Ctx) {
 						}
 						if doneAnswered {
 							rec.violation("leecher-done", "leecher-done", "t=%v: RequestChunks(%d) after Done() returned true", now(), maxChunks)
+						}
+						if suspended && suspendedSince >= 0 && now() > suspendedSince {
+							// "issues no request while suspended": the suspension began at an earlier instant, whatever made the
+							// leecher act now came after that
+							rec.violation("leecher-suspend", "leecher-suspend/request-while-suspended", "t=%v: RequestChunks(%d) although the application has been suspended (Suspend() answers true) since %v", now(), maxChunks, suspendedSince)
 						}
 						if doneSince >= 0 && now() > doneSince {
 							// the download has been done since an earlier instant: whatever made the leecher act now (a tick, a
@@ -175,9 +181,13 @@ func RunLeechers(c *sim.Ctx) {
 						}
 					})
 				case "suspend":
-					ml.do(func() { suspended = true })
+					ml.do(func() {
+						if !suspended {
+							suspended, suspendedSince = true, t
+						}
+					})
 				case "resume":
-					ml.do(func() { suspended = false })
+					ml.do(func() { suspended, suspendedSince = false, -1 })
 				case "done":
 					ml.do(func() {
 						if !done {
